@@ -159,3 +159,8 @@ class _nullctx:
 
     def __exit__(self, *a):
         return False
+
+
+def note_operand(arr):
+    """hook: an operand that was derived (not drawn by random_array); the C03 harness replaces this to watch it"""
+    return arr
